@@ -10,7 +10,6 @@ import (
 	"net/http/httptest"
 	"net/url"
 	"sort"
-	"strconv"
 	"strings"
 	"sync"
 	"time"
@@ -37,7 +36,10 @@ import (
 // Unit is the real duration of one abstract tick. A spec threshold of k ticks
 // is configured as (k+1/2)*Unit so that whole-tick gaps never sit on a
 // comparison boundary (DESIGN.md 2.5).
-const Unit = 20 * time.Second
+// One hour per tick keeps every comparison half an hour away from its
+// threshold however long a scenario takes to run; the SMS resend limit (a
+// fixed 10 s) is re-based from the abstract clock before every request.
+const Unit = time.Hour
 
 func ticks(k int) time.Duration { return time.Duration(k)*Unit + Unit/2 }
 
@@ -358,6 +360,19 @@ func (r renderer) Render(ctx context.Context, page string, data authboss.HTMLDat
 	return r.inner.Render(ctx, page, data)
 }
 
+// otpReader adds the otp module's login page to the shipped body reader, which
+// does not know it ("otplogin" carries the same fields as "login": the pid and,
+// in the password field, the one-time password). An application using the otp
+// module with defaults.HTTPBodyReader has to do exactly this.
+type otpReader struct{ inner authboss.BodyReader }
+
+func (o otpReader) Read(page string, r *http.Request) (authboss.Validator, error) {
+	if page == "otplogin" {
+		page = "login"
+	}
+	return o.inner.Read(page, r)
+}
+
 // errHandler500 is the alternative error handler that writes a 500.
 type errHandler500 struct{ log authboss.Logger }
 
@@ -428,6 +443,7 @@ var AllSessionKeys = []string{
 	authboss.SessionOAuth2State, authboss.SessionOAuth2Params,
 	totp2fa.SessionTOTPSecret, totp2fa.SessionTOTPPendingPID,
 	sms2fa.SessionSMSNumber, sms2fa.SessionSMSSecret, sms2fa.SessionSMSLast, sms2fa.SessionSMSPendingPID,
+	"sms_secret_number",
 	authboss.FlashSuccessKey, authboss.FlashErrorKey, "app1", "app2",
 }
 
@@ -448,6 +464,7 @@ func New(cfg Config) (*Instance, error) {
 	ab.Config.Core.ViewRenderer = renderer{store: in.Store, last: &in.lastPage}
 	ab.Config.Core.MailRenderer = renderer{store: in.Store, mail: true}
 	defaults.SetCore(&ab.Config, cfg.JSON, false)
+	ab.Config.Core.BodyReader = otpReader{ab.Config.Core.BodyReader}
 	logger := defaults.NewLogger(in.Log)
 	ab.Config.Core.Logger = logger
 	if cfg.ErrWrites {
@@ -792,11 +809,6 @@ func (in *Instance) Tick(d int) {
 		if v, ok := m[authboss.SessionLastAction]; ok {
 			if t, err := time.Parse(time.RFC3339, v); err == nil {
 				in.Sess.Set(b, authboss.SessionLastAction, t.Add(-dur).UTC().Format(time.RFC3339))
-			}
-		}
-		if v, ok := m[sms2fa.SessionSMSLast]; ok {
-			if n, err := strconv.ParseInt(v, 10, 64); err == nil {
-				in.Sess.Set(b, sms2fa.SessionSMSLast, strconv.FormatInt(n-int64(dur/time.Second), 10))
 			}
 		}
 	}
